@@ -369,3 +369,8 @@ N.append({'id': 'cxx-if-else-inverted', 'generator': 'invert-ifs', 'file': None,
 # first run raised alarms in K7, P2cxx, I2 and an analysis error in P1: each read the test off one
 # operand order.  The IR now puts the constant operand of a built-in ==/!= on the right.
 N.append({'id': 'cxx-comparison-operands-swapped', 'generator': 'swap-eq', 'file': None, 'edits': []})
+
+# `a < b` written `b > a` at 71 sites (loop bounds, index range tests, the depth test, the cache
+# cap).  The first run raised alarms in K4 (loop direction read off `i >= 0`), I3, I4 and T3; they
+# now read inequalities through `relation()` (small, big, strict), whichever way they are spelt.
+N.append({'id': 'cxx-inequalities-mirrored', 'generator': 'swap-rel', 'file': None, 'edits': []})
